@@ -197,3 +197,27 @@ CHECKS["C05"] = dict(
                "cover separately) and bit-exact state images from the space's own serialization.",
     assumptions=["s1 is valid and both states are in bounds (documented precondition of checkMotion)"],
 )
+
+CHECKS["C09"] = dict(
+    src="harness/C09_storage.cpp",
+    cases=dict(quick=40000, thorough=600000),
+    fuzz=dict(runs=300000, maxlen=900),
+    rule="Case = one of: (42%) state laws on a generated space (as C06 + unbounded time): copyState, cloneState, ScopedState copy/assign/==, "
+         "serialize->deserialize, copyToReals->copyFromReals must give equalStates and a bit-identical serialized image; (17%) copyStateData between two "
+         "compounds built from a shared pool of 2..6 named subspaces (random subsets, optional inner compound): exactly the common subspaces are "
+         "transferred, the rest is bit-identical to before, return code NO/SOME/ALL matches; (17%) StateStorage: 0..12 states, round trip, EVERY "
+         "truncation offset 0..len-1 (must be reported, may keep only a correct prefix), foreign space signature, occasionally a user-style subspace of "
+         "zero serialization length; (25%) PlannerDataStorage, geometric or with controls: 0..14 vertices with tags, duplicate state values, multiple "
+         "starts / goals, a vertex that is both, removed vertices, <=20 edges with weights from {1, 0, uniform, 1e-300, 1e300, inf}, controls and "
+         "durations -> loaded graph equal under the index map; EVERY truncation offset must make load() return false with an error logged; a foreign "
+         "signature and a stream with the other marker are rejected. Non-trivial = nested depth >=2 or wrapper / some-but-not-all common subspaces / "
+         "a truncation that falls inside the states or the vertex-edge section of a graph with >=2 starts or goals or a removed vertex.",
+    technique="property-based round-trip testing + exhaustive fault enumeration of truncation offsets per generated stream; libFuzzer in thorough",
+    level_text="Round trips are compared bit for bit on serialized images and graph structure; stream faults are enumerated completely per "
+               "generated stream (every truncation offset) on top of generated graphs and spaces. Exploration over spaces/graphs, exhaustive over "
+               "truncation offsets of each explored stream.",
+    level_note="Trusted: the harness's vertex/edge model (checked against the source graph before storing). Leak detection is off: leaks on the "
+               "library's error paths are an observation, not part of the property.",
+    assumptions=["'reported' = load() returns false (PlannerData) or an error/warning is logged (StateStorage)",
+                 "reals round trip applies to the values a space exposes; spaces exposing none (Discrete) are counted as vacuous"],
+)
